@@ -128,6 +128,8 @@ pub(crate) fn run_scheduling_solver(
                     set_placement_name(&mut solver, worker.id, batch.resource_rq_id, v_idx);
                     let v =
                         create_sn_var(&mut solver, rq, n_workers, w_idx, worker, &resource_sums);
+                    #[cfg(feature = "verif")]
+                    verif_log::var(v, 'x', worker.id.as_num(), batch.resource_rq_id.as_num(), v_idx.as_num() as u32, verif_log::last_weight());
                     placements.insert((worker.id, batch.resource_rq_id, v_idx), v);
                     tasks_count_vars
                         .entry(batch.resource_rq_id)
@@ -159,6 +161,8 @@ pub(crate) fn run_scheduling_solver(
                 let weight = w_idx as f64 / (n_workers * 100) as f64;
                 solver.set_name(|| format!("R{}:{}", worker.id, batch.resource_rq_id));
                 let v = solver.add_bool_variable(weight);
+                #[cfg(feature = "verif")]
+                verif_log::var(v, 'R', worker.id.as_num(), batch.resource_rq_id.as_num(), 0, weight);
                 tasks_count_vars
                     .entry(batch.resource_rq_id)
                     .or_default()
@@ -185,6 +189,8 @@ pub(crate) fn run_scheduling_solver(
             }
             if !c.is_empty() {
                 solver.set_name(|| format!("w{} resource limit", worker.id));
+                #[cfg(feature = "verif")]
+                verif_log::row(ConstraintType::Max, free.as_f64(), c.iter().copied());
                 solver.add_constraint(ConstraintType::Max, free.as_f64(), c.iter().copied())
             }
             c.clear();
@@ -207,6 +213,8 @@ pub(crate) fn run_scheduling_solver(
                 if !temp.is_empty() {
                     solver.set_name(|| format!("mn_{}_{}", batch.resource_rq_id, group_name));
                     let v = solver.add_nat_variable(0.0);
+                    #[cfg(feature = "verif")]
+                    verif_log::var(v, 'M', 0, batch.resource_rq_id.as_num(), 0, 0.0);
                     solver.set_name(|| format!("MN size for rq{}", batch.resource_rq_id));
                     constraint_extra_var(
                         &mut solver,
@@ -238,6 +246,8 @@ pub(crate) fn run_scheduling_solver(
         // Create a new blocking variable
         solver.set_name(|| format!("B{}~{}", blocker_rq_id, size));
         let new_v = solver.add_bool_variable(0.0);
+        #[cfg(feature = "verif")]
+        verif_log::var(new_v, 'B', 0, blocker_rq_id.as_num(), size, 0.0);
         solver.set_name(|| format!("blocker rq{blocker_rq_id} at size {size}"));
         let bound = size as f64;
         constraint_extra_var(
@@ -263,6 +273,12 @@ pub(crate) fn run_scheduling_solver(
         assert!(!task_counts.is_empty());
         if !batch.limit_reached {
             solver.set_name(|| format!("size limit for rq{}", batch.resource_rq_id));
+            #[cfg(feature = "verif")]
+            verif_log::row(
+                ConstraintType::Max,
+                batch.size as f64,
+                task_counts.iter().map(|v| (*v, 1.0)),
+            );
             solver.add_constraint(
                 ConstraintType::Max,
                 batch.size as f64,
@@ -331,6 +347,16 @@ pub(crate) fn run_scheduling_solver(
                                         w.id, batch.resource_rq_id, gap, cut.size,
                                     )
                                 });
+                                #[cfg(feature = "verif")]
+                                verif_log::row(
+                                    ConstraintType::Max,
+                                    cut_size + gap as f64,
+                                    batch_rqv.variant_ids().filter_map(|v_id| {
+                                        placements
+                                            .get(&(w.id, batch.resource_rq_id, v_id))
+                                            .map(|v| (*v, 1.0))
+                                    }),
+                                );
                                 solver.add_constraint(
                                     ConstraintType::Max,
                                     cut_size + gap as f64,
@@ -419,6 +445,12 @@ pub(crate) fn run_scheduling_solver(
                             batch.resource_rq_id, cut.size
                         )
                     });
+                    #[cfg(feature = "verif")]
+                    verif_log::row(
+                        ConstraintType::Max,
+                        cut.size as f64,
+                        zero_cond.iter().map(|v| (*v, 1.0)),
+                    );
                     solver.add_constraint(
                         ConstraintType::Max,
                         cut.size as f64,
@@ -435,6 +467,8 @@ pub(crate) fn run_scheduling_solver(
         return result;
     };
     result.is_optimal = is_optimal;
+    #[cfg(feature = "verif")]
+    verif_log::values(|v| solution.get_value(v));
 
     for batch in task_batches {
         let resource_rq_id = batch.resource_rq_id;
@@ -522,6 +556,10 @@ fn add_min_utilization(
     solver.set_name(|| format!("mu_{}", worker.id));
     let v = solver.add_bool_variable(0.0);
     worker_res_constraint.push((v, -min_cpus));
+    #[cfg(feature = "verif")]
+    verif_log::var(v, 'U', worker.id.as_num(), 0, 0, 0.0);
+    #[cfg(feature = "verif")]
+    verif_log::row(ConstraintType::Min, 0.0, worker_res_constraint.iter().copied());
     solver.set_name(|| format!("w{} min utilization (lower bound)", worker.id));
     solver.add_constraint(
         ConstraintType::Min,
@@ -531,6 +569,8 @@ fn add_min_utilization(
     worker_res_constraint.pop();
     solver.set_name(|| format!("w{} min utilization (upper bound)", worker.id));
     worker_res_constraint.push((v, -all_cpus));
+    #[cfg(feature = "verif")]
+    verif_log::row(ConstraintType::Max, 0.0, worker_res_constraint.iter().copied());
     solver.add_constraint(
         ConstraintType::Max,
         0.0,
@@ -567,6 +607,8 @@ fn create_sn_var(
         * rq.weight().as_f64()
         / n_workers as f64;
 
+    #[cfg(feature = "verif")]
+    verif_log::set_last_weight(weight);
     solver.add_nat_variable(weight)
 }
 
@@ -604,9 +646,124 @@ fn constraint_extra_var(
     var: Variable,
     coef: f64,
 ) {
+    #[cfg(feature = "verif")]
+    let vars = {
+        let collected: Vec<Variable> = vars.collect();
+        verif_log::row(
+            constraint_type,
+            limit_value,
+            collected
+                .iter()
+                .map(|v| (*v, 1.0))
+                .chain(std::iter::once((var, coef))),
+        );
+        collected.into_iter()
+    };
     solver.add_constraint(
         constraint_type,
         limit_value,
         vars.map(|v| (v, 1.0)).chain(std::iter::once((var, coef))),
     );
+}
+
+/// Verification hook (add-only, feature `verif`): records the variables and rows handed to the
+/// LP solver by `run_scheduling_solver` and the raw solution values, per thread.
+#[cfg(feature = "verif")]
+pub(crate) mod verif_log {
+    use super::{ConstraintType, Variable};
+    use std::cell::{Cell, RefCell};
+
+    #[derive(Debug, Clone)]
+    pub(crate) enum Entry {
+        /// kind: 'x' placement (a = worker, b = rq, c = variant), 'R' reservation (a = worker, b = rq),
+        /// 'B' blocker (b = rq, c = size), 'M' multi-node count (b = rq), 'U' min-utilization (a = worker)
+        Var {
+            index: usize,
+            kind: char,
+            a: u32,
+            b: u32,
+            c: u32,
+            weight: f64,
+        },
+        Row {
+            ctype: ConstraintType,
+            bound: f64,
+            terms: Vec<(usize, f64)>,
+        },
+        Values(Vec<f64>),
+    }
+
+    #[derive(Default)]
+    struct Log {
+        entries: Vec<Entry>,
+        vars: Vec<Variable>,
+        index: crate::Map<Variable, usize>,
+    }
+
+    thread_local! {
+        static LOG: RefCell<Option<Log>> = const { RefCell::new(None) };
+        static LAST_WEIGHT: Cell<f64> = const { Cell::new(0.0) };
+    }
+
+    pub(crate) fn start() {
+        LOG.with(|l| *l.borrow_mut() = Some(Log::default()));
+    }
+
+    pub(crate) fn take() -> Vec<Entry> {
+        LOG.with(|l| l.borrow_mut().take().map(|l| l.entries).unwrap_or_default())
+    }
+
+    pub(crate) fn set_last_weight(w: f64) {
+        LAST_WEIGHT.with(|c| c.set(w));
+    }
+
+    pub(crate) fn last_weight() -> f64 {
+        LAST_WEIGHT.with(|c| c.get())
+    }
+
+    pub(crate) fn var(v: Variable, kind: char, a: u32, b: u32, c: u32, weight: f64) {
+        LOG.with(|l| {
+            if let Some(log) = l.borrow_mut().as_mut() {
+                let index = log.vars.len();
+                log.vars.push(v);
+                log.index.insert(v, index);
+                log.entries.push(Entry::Var {
+                    index,
+                    kind,
+                    a,
+                    b,
+                    c,
+                    weight,
+                });
+            }
+        });
+    }
+
+    pub(crate) fn row(
+        ctype: ConstraintType,
+        bound: f64,
+        terms: impl Iterator<Item = (Variable, f64)>,
+    ) {
+        LOG.with(|l| {
+            if let Some(log) = l.borrow_mut().as_mut() {
+                let terms = terms
+                    .map(|(v, c)| (log.index.get(&v).copied().unwrap_or(usize::MAX), c))
+                    .collect();
+                log.entries.push(Entry::Row {
+                    ctype,
+                    bound,
+                    terms,
+                });
+            }
+        });
+    }
+
+    pub(crate) fn values(get: impl Fn(Variable) -> f64) {
+        LOG.with(|l| {
+            if let Some(log) = l.borrow_mut().as_mut() {
+                let vals = log.vars.iter().map(|v| get(*v)).collect();
+                log.entries.push(Entry::Values(vals));
+            }
+        });
+    }
 }
